@@ -1,8 +1,9 @@
-from . import streams_codec, cli
+from . import streams_codec, cli, streams_ugrid
 
 ID = 'C08'
 PROPS_MODULE = ['Refine.Props.C08', 'Refine.Props.C08Endian']
-STREAMS = [streams_codec.MESHB_WRITE, streams_codec.MESHB_READ, cli.CONVERT, cli.CONVERT_MPI]
+STREAMS = [streams_codec.MESHB_WRITE, streams_codec.MESHB_READ, cli.CONVERT, cli.CONVERT_MPI,
+           streams_ugrid.WRITE, streams_ugrid.READ, streams_ugrid.PART, streams_ugrid.GATHER]
 EXPLANATION = (
     'Proved in Lean (Refine/Props/C08.lean): decodeMeshb (encodeMeshb v m) = ok m for every WellFormed mesh and '
     'v in {2,3,4} (all 16 cell groups, vertex coordinates as bit patterns, ids, geometry records with gref as a '
